@@ -140,4 +140,51 @@ theorem refines_ShardStateUnsplit : RefinesP PV (SrcBlk.ShardStateUnsplit false)
     optK refines_BlkMasterInfo nonUnit_blkMasterInfo,
     optRefK (r := SrcBlk.McStateExtra) refines_McStateExtra nonUnit_mcStateExtra]
 
+theorem refines_ShardState : RefinesP PV (SrcBlk.ShardState false) shardState view_ShardState := by
+  rintro ⟨bits, refs⟩ v s'
+  simp only [shardState, typ_dec, shardStateAlts, tagged_dec, decAlts_cons, decAlts_nil, tag, natToBits, Nat.reduceDiv, Nat.reduceMod,
+    Nat.reduceBEq, Nat.reduceBNe, List.cons_append, List.nil_append, Frag.mk.injEq]
+  rintro ⟨_, h⟩ hv
+  rcases h with ⟨t, rs, ⟨rfl, rfl⟩, x, hx, rfl⟩ | ⟨_, ⟨t, rs, ⟨rfl, rfl⟩, x, hx, rfl⟩ | ⟨_, hf⟩⟩
+  · have := refines_ShardStateUnsplit ⟨tag 32 0x9023afe2 ++ t, refs⟩ x s'
+      ((ctag_dec (tag 32 0x9023afe2) shardStateUnsplitBody _ _ _).2 ⟨t, refs, rfl, hx⟩) (Tx.noVar_con _ _ hv)
+    simp only [tag, natToBits, Nat.reduceDiv, Nat.reduceMod, Nat.reduceBEq, Nat.reduceBNe, List.cons_append, List.nil_append] at this
+    simp [SrcBlk.ShardState, preloadBytes_cons, takeBits_succ, takeBits_zero, Rd.veq, Rd.bytesLit, natToBits, this, view_ShardState,
+      Rd.obj, Rd.str]
+  · simp only [recd_dec, fld, decFields_cons, decFields_nil] at hx
+    obtain ⟨vs, ⟨a, s1, ha, vs', ⟨b, s2, hb, vs'', ⟨rfl, rfl⟩, rfl⟩, rfl⟩, rfl⟩ := hx
+    have hv' : a.noVar = true ∧ b.noVar = true := by
+      simpa [PV, Val.noVar, noVarFs, Bool.and_eq_true] using hv
+    have h1 := (refines_ShardStateUnsplit.toE.viaRef (r := SrcBlk.ShardStateUnsplit)) _ _ _ ha hv'.1
+    have h2 := (refines_ShardStateUnsplit.toE.viaRef (r := SrcBlk.ShardStateUnsplit)) _ _ _ hb hv'.2
+    simp [SrcBlk.ShardState, preloadBytes_cons, loadBytes_cons, takeBits_succ, takeBits_zero, Rd.veq, Rd.bytesLit, natToBits, h1, h2,
+      view_ShardState, Rd.obj, Rd.str, Val.get, List.lookup]
+  · exact hf.elim
+
+/-! ### masterchain block extra -/
+
+theorem nonUnit_configParams : NonUnit configParams := by unfold configParams; tlb_nonunit
+
+theorem refines_McBlockExtra : Refines (SrcBlk.McBlockExtra false) mcBlockExtra view_McBlockExtra := by
+  rintro ⟨bits, refs⟩ v s'
+  tx_struct [mcBlockExtra, shardHashes, shardFeesK Tx.refines_CurrencyCollection]
+  repeat' (first
+    | apply And.intro
+    | (intro h
+       first
+         | (simp only [Frag.mk.injEq] at h; obtain ⟨h1, h2⟩ := h; subst h1; subst h2)
+         | subst h
+         | skip))
+  simp (config := {decide := true}) only [forall_const,
+     envNat_cons, String.reduceBEq, Bool.false_eq_true, if_false, if_true, bitInt_toNat, bit_eq_one,
+     shardHashesK (leaf := SrcBlk.ShardDescr) (refines_ShardDescr.toP PT).toE, dictRawK cryptoSignaturePair 16,
+     optK (r := Rd.loadRefV) (c := cellRef) (w := id) (fun s v s' hd => by
+        obtain ⟨b, c, more, rfl, rfl, rfl⟩ := (cellRef_dec s v s').1 hd; rfl) (fun s v s' hd => by
+        obtain ⟨b, c, more, rfl, rfl, rfl⟩ := (cellRef_dec s v s').1 hd; simp),
+     condK refines_ConfigParams nonUnit_configParams] at *
+  simp [*, SrcBlk.McBlockExtra, view_McBlockExtra, view_ShardHashes, Val.get, List.lookup, Rd.truthy, Rd.obj, Rd.str, Rd.veq, Rd.bytesLit,
+      loadBytes_cons, takeBits_zero, takeBits_succ, natOfBits, natToBits, loadBit_cons, bind_some_eta, loadRef_cons, special_mk,
+      beginParse_mk]
+  simp [*, loadMaybeRef_eq_optional, viewMaybe_id]
+
 end TonVerif.Tlb.Blk
